@@ -132,8 +132,8 @@ MUTANTS = [
     ("c14-flow-only-if-missing", ["C14"], S + "aspire.py",
      "                if self.flow is not None and not saved_flow:\n                    # The flow in the file must be the one this run samples\n                    # from: replace an existing one\n                    if \"flow\" in h5_file:\n                        del h5_file[\"flow\"]\n                    self.save_flow(h5_file)",
      "                if self.flow is not None and not saved_flow and \"flow\" not in h5_file:\n                    self.save_flow(h5_file)"),
-    ("c14-fit-keeps-saved-flag", ["C14"], S + "aspire.py",
-     "            defaults[\"saved_flow\"] = False\n        # ... and so is a checkpoint", "            pass\n        # ... and so is a checkpoint"),
+    ("c14-fit-version-not-bumped-in-context", ["C14"], S + "aspire.py",
+     "        self._flow_version = getattr(self, \"_flow_version\", 0) + 1\n", "        self._flow_version = getattr(self, \"_flow_version\", 0) + (0 if defaults else 1)\n"),
     ("c14-resume-defaults-no-config", ["C14"], S + "aspire.py",
      "            \"every\": 1,\n            \"save_config\": True,\n            \"save_flow\": False,", "            \"every\": 1,\n            \"save_config\": False,\n            \"save_flow\": False,"),
     ("c14-new-run-keeps-old-checkpoint", ["C14"], S + "aspire.py",
